@@ -39,7 +39,7 @@ def run_contract(func_name, module_src, per_condition_timeout=30, per_path_timeo
         res = {"wall_s": round(time.time() - t, 2), "raw": out[-1500:], "verdict": "inconclusive", "args": None}
         for line in out.splitlines():
             if "error:" in line and "when calling" in line:
-                m = re.search(r"when calling %s\((.*?)\)(?: \(which|$)" % re.escape(func_name), line)
+                m = re.search(r"when calling %s\((.*?)\)(?: with crosshair| \(which|$)" % re.escape(func_name), line)
                 res["verdict"] = "counterexample"
                 res["call"] = line.split("error:", 1)[1].strip()[:500]
                 if m:
